@@ -50,4 +50,21 @@ PROPS = {
         'harnesses': ['c09::h_cuts', 'c09::h_chunks', 'c09::h_malformed'],
         'covers': {'c09::h_cuts': ['cut-inside-char'], 'c09::h_chunks': ['chunked'], 'c09::h_malformed': ['failed']},
     },
+    'C10': {
+        'harnesses': ['c10::h_roundtrip_text', 'c10::h_roundtrip_api'],
+        'covers': {'c10::h_roundtrip_text': ['has-patch', 'two-distfiles'], 'c10::h_roundtrip_api': ['api-patch']},
+    },
+    'C11': {
+        'harnesses': ['c10::h_classify', 'c10::h_lines'],
+        'covers': {'c10::h_classify': ['patch', 'dist'], 'c10::h_lines': ['some-dist', 'some-patch']},
+    },
+    'C19': {
+        'harnesses': ['c19::h_pkgpath_any', 'c19::h_pkgpath_segments', 'c19::h_depend'],
+        'covers': {'c19::h_pkgpath_any': ['accepted', 'rejected'], 'c19::h_pkgpath_segments': ['accepted', 'rejected'],
+                   'c19::h_depend': ['accepted', 'rejected']},
+    },
+    'C16': {
+        'harnesses': ['c16::h_records', 'c16::h_io_error'],
+        'covers': {'c16::h_records': ['ok-two-records', 'rejected'], 'c16::h_io_error': ['error-injected', 'no-error']},
+    },
 }
